@@ -39,7 +39,7 @@ PROPS = {
         "assumptions": ["memory exhaustion, stack depth and wall-clock time are outside the model and only measured"],
     },
     "C05": {
-        "ops": [("wsl", FF, 10000, 300000), ("fills", FF, 4000, 100000), ("wsl", MIN, 3000, 60000), ("fills", MIN, 1500, 30000)],
+        "ops": [("wsl", FF, 10000, 300000), ("fills", FF, 4000, 100000), ("wsl", MIN, 3000, 60000), ("fills", MIN, 1500, 30000), ("api", FF, 1, 1), ("api", MIN, 1, 1)],
         "explanation": "theorems C05_fits_first_fit / C05_fits_optimal_fit (fits => exactly one unchanged line; hypotheses TrimOK, Additive = not CutInsideEscape, PenOK = not PenaltyWithoutRoom, each a theorem in the common cases: C05_hypotheses), C05_shortcut_first_fit / _optimal_fit / _texts (the byte-length shortcut is unobservable for ALL paragraphs, arbitrary penalties), C05_fill_shortcut; L2: impl-vs-impl comparison of wrap_single_line with its slow path and of fill with fill_slow_path through upstream's cfg(fuzzing) exports, and fits => one unchanged line, outside the listed classes",
         "assumptions": ["upstream's --cfg fuzzing exports are the only way to reach the slow path directly"],
     },
@@ -59,7 +59,7 @@ PROPS = {
         "assumptions": ["reading of the optimal-fit clause as in DESIGN.md §6/C14"],
     },
     "C03": {
-        "ops": [("of", FF, 12000, 400000), ("wrap", FF, 4000, 150000), ("wsl", FF, 4000, 100000), ("fill2", FF, 2000, 50000)],
+        "ops": [("of", FF, 12000, 400000), ("wrap", FF, 4000, 150000), ("wsl", FF, 4000, 100000), ("fill2", FF, 2000, 50000), ("api", FF, 1, 1)],
         "colmin": True,
         "explanation": "theorems: the DP value is a lower bound for EVERY arrangement (Bellman, <=2 line widths), attained by back-tracking any true column minima (conditional on ColMin for smawk, which is not proved), the reference search satisfies ColMin, three widths are a counterexample, wrap hands exactly two widths to the algorithm; L1/L2: exact cost (Q) of the implementation's arrangement = the DP optimum for every generated fragment list inside the precondition, and for every paragraph partition recorded at the wrap level; on integer-valued cases the verdict is that of the extracted Coq function optimal_b, proved sound and complete for 'minimum cost over all arrangements' (C03_checker_sound / _complete)",
         "assumptions": ["ColMin: smawk::online_column_minima returns true column minima on this matrix — NOT proved, exercised on every generated case by the exact-cost comparison"],
